@@ -67,3 +67,13 @@ def taylor_replay(case):
             if not (mm >= n + 1 and mm & (mm - 1) == 0):
                 bad.append(dict(what='number of coefficients', n=n, m=mm)); break
     return dict(reproduced=bool(bad), failing=bad[:4])
+
+
+@reg('C17.tconc')
+def tconc(case):
+    import numdifftools.fornberg as fb
+    from ndvc.concrete import taylor_cases
+    res = taylor_cases(fb)
+    want = case.get('name')
+    bad = [dict(case=k, **(v[1] or {})) for k, v in sorted(res.items()) if not v[0] and (want is None or k == want)]
+    return dict(reproduced=bool(bad), failing=bad[:4], statement='taylor: n+1 coefficients, not degenerate/failed with defaults, error within 100 x estimate + 100 x floor')
